@@ -151,6 +151,9 @@ type Layout struct {
 	FontNameRot, FontsDirect, InlineImages bool
 	// TmScale: "/F 1 Tf  s 0 0 s x y Tm" instead of "/F s Tf  1 0 0 1 x y Tm"
 	TmScale bool
+	// Omit: entity keys (e.g. "font:3", "font:3:tounicode") that get an object
+	// number but are not written: references to them dangle (C02 / C03 only)
+	Omit []string
 	// Mutate: a semantic fault applied while writing revision MutateRev (C02 only)
 	Mutate    *Mutation
 	MutateRev int
@@ -1038,6 +1041,25 @@ func Build(seed int64, lay Layout, docs []*Doc) *Built {
 		}
 		if lay.Mutate != nil && lay.MutateRev == ri {
 			rv.Mutate = lay.Mutate
+		}
+		if len(lay.Omit) > 0 {
+			// omitted entities keep their object number (references to them are
+			// written as usual) but the object itself is never stored: a dangling
+			// reference, which ISO 32000-1 7.3.10 says is to be read as null
+			kept := rv.Objs[:0:0]
+			for _, o := range rv.Objs {
+				drop := false
+				for _, k := range lay.Omit {
+					drop = drop || o.Key == k
+				}
+				if drop {
+					f.Bind(o.Key, o.Num, o.Gen)
+					b.feat["ref.dangling"] = true
+					continue
+				}
+				kept = append(kept, o)
+			}
+			rv.Objs = kept
 		}
 		f.WriteRevision(rv)
 		objStmN = append(objStmN, rv.OutObjStmN)
